@@ -18,7 +18,8 @@ theorem exact_run_facts (c : Content) (a b : Nat) (hab : a ≤ b) (script : List
   refine ⟨_, ofPlan_exact a b hab script, ?_⟩
   obtain ⟨h1, h2, h3⟩ := exact_body_is_slice c a b hab script hhon n hn
   refine ⟨h1, h2, h3, ?_⟩
-  exact run_clean_end_exact n (.exact { stream := script, remaining := b - a }) trivial h3 h2
+  exact run_clean_end_exact n (.exact { stream := script, remaining := b - a })
+    (ExactLen.ok_of_not_finished rfl) h3 h2
 
 /-- With at least two ranges and a small estimate, the branch is decided by `prepareMultipart`. -/
 theorem rangesBr_multi (e : Ent) (inc : Bool) (rs : List (Nat × Nat)) (h2 : 2 ≤ rs.length)
